@@ -1644,6 +1644,9 @@ func (c *compiler) VisitTernaryExpr(e *ast.TernaryExpr) ast.VisitResult {
 		// simple case, where both can be treated the same way
 		if lhsIsTemp == rhsIsTemp {
 			c.latestIsTemp = lhsIsTemp
+		} else if lhsTyp.IsPrimitive() {
+			// primitives are plain values, there is nothing to copy or claim
+			c.latestIsTemp = true
 		} else {
 			c.latestIsTemp = true
 
